@@ -844,6 +844,7 @@ impl<F: Read + Write + Seek> CompoundFile<F> {
             Some(stream_id) => stream_id,
             None => not_found!("Parent storage doesn't exist"),
         };
+        internal::path::validate_name(name)?;
         self.minialloc_mut().insert_dir_entry(
             parent_id,
             name,
@@ -863,6 +864,11 @@ impl<F: Read + Write + Seek> CompoundFile<F> {
 
     fn create_storage_all_with_path(&mut self, path: &Path) -> io::Result<()> {
         let names = internal::path::name_chain_from_path(path)?;
+        // Validate every name up front, so that an invalid name deep in the
+        // path doesn't leave some of the parent storages behind.
+        for name in names.iter() {
+            internal::path::validate_name(name)?;
+        }
         for length in 1..(names.len() + 1) {
             let prefix_path =
                 internal::path::path_from_name_chain(&names[..length]);
@@ -1027,6 +1033,7 @@ impl<F: Read + Write + Seek> CompoundFile<F> {
             Some(stream_id) => stream_id,
             None => not_found!("Parent storage doesn't exist"),
         };
+        internal::path::validate_name(name)?;
         let new_stream_id = self.minialloc_mut().insert_dir_entry(
             parent_id,
             name,
